@@ -4,7 +4,7 @@ WIP["C41"] = dict(
     level_text="Per case a fresh Chain with generated magic blocks and the real StartLFBTicketWorker goroutine; generated bursts of tickets (any round; signer a sharder of the magic block in force, a sharder outside it, a miner, a registered node in no magic block, self, an unknown or malformed id; signature valid, empty, garbage, by another key, genuine over another round or hash) go through LFBTicketHandler, local blocks through BroadcastLFBTicket, unsigned kicks through AddReceivedLFBTicket. After each burst the reported latest ticket must not have a lower round than before, and a newly adopted received ticket must equal a ticket that was sent, name a sharder of the magic block in force and verify under that sharder's key. Exploration: says nothing about streams and interleavings that were not generated.",
     level_note="The harness judges membership and signatures from its own key and pool records; 'current magic block' is Chain.GetCurrentMagicBlock() when the ticket is handed in. Interleavings inside a burst are sampled by the Go scheduler, not enumerated.",
     parts=[
-        dict(pkg="0chain.net/chaincore/chain", run="^TestC41_LFBTickets$", quick=1200, thorough=64000, floor=50,
+        dict(pkg="0chain.net/chaincore/chain", run="^TestC41_LFBTickets$", quick=1200, thorough=40000, floor=50,
              timeout_quick=600, timeout_thorough=1500),
     ],
     assumptions=["every generated node is inactive, so broadcasts never reach the network layer",
